@@ -234,3 +234,36 @@ func refGas(op byte, st func(int) *big.Int, memLen uint64, gasBefore uint64) (*b
 	}
 	return nil, false
 }
+
+// ---------------------------------------------------------------- MODEXP (precompile 0x05, EIP-198): base^exp mod m, big-endian
+
+// refModexp parses the call input as EIP-198 prescribes (three 32-byte lengths, then the operands, everything zero-extended on
+// the right) and evaluates the mathematical definition; ok=false for lengths the harness does not want to evaluate.
+func refModexp(in []byte) ([]byte, bool) {
+	get := func(off, n uint64) []byte {
+		out := make([]byte, n)
+		if off < uint64(len(in)) {
+			copy(out, in[off:])
+		}
+		return out
+	}
+	bl, el, ml := new(big.Int).SetBytes(get(0, 32)), new(big.Int).SetBytes(get(32, 32)), new(big.Int).SetBytes(get(64, 32))
+	if !bl.IsUint64() || !el.IsUint64() || !ml.IsUint64() || bl.Uint64() > 1024 || el.Uint64() > 1024 || ml.Uint64() > 1024 {
+		return nil, false
+	}
+	b, e, m := bl.Uint64(), el.Uint64(), ml.Uint64()
+	if b == 0 && m == 0 {
+		return []byte{}, true
+	}
+	base := new(big.Int).SetBytes(get(96, b))
+	exp := new(big.Int).SetBytes(get(96+b, e))
+	mod := new(big.Int).SetBytes(get(96+b+e, m))
+	res := new(big.Int)
+	if mod.Sign() != 0 {
+		res.Exp(base, exp, mod) // x^0 mod 1 = 0: Exp reduces modulo m
+		res.Mod(res, mod)
+	}
+	out := make([]byte, m)
+	res.FillBytes(out)
+	return out, true
+}
